@@ -46,6 +46,9 @@ class Family:
         self.undiscovered_ok = undiscovered_ok or {}
 
 
+ASSUMED: Set[str] = set()        # assumptions the interpreter relied on (flushed into the evidence by analyse_class)
+
+
 def _join(a: Optional[State], b: Optional[State]) -> Optional[State]:
     if a is None:
         return b
@@ -172,8 +175,9 @@ class DSF:
         return {d: (level, None, None) for d in self.derived}
 
     def _cause(self, node: ast.AST) -> Tuple[str, int, str, str]:
+        from .inline import real_line
         fn = self.fn_stack[-1]
-        return (fn.path, getattr(node, 'lineno', fn.lineno), norm(node)[:100], fn.qualname)
+        return (fn.path, real_line(getattr(node, 'lineno', fn.lineno)), norm(node)[:100], fn.qualname)
 
     def write_dep(self, st: State, attr: str, node: ast.AST) -> State:
         self.touched.add(attr)
@@ -298,6 +302,10 @@ class DSF:
                 cur = self.expr(s.iter, cur)
                 if cur is None:
                     return None
+                at_least_once = self.bind_loop_targets(s)
+            else:
+                at_least_once = False
+            first_body = None
             for _ in range(8):
                 head = cur
                 if isinstance(s, ast.While):
@@ -305,6 +313,14 @@ class DSF:
                     if head is None:
                         break
                 body = self.block(s.body, head)
+                if at_least_once and first_body is None:
+                    # a loop over a non-empty literal sequence of sub-objects runs its body at least once: the state
+                    # after the loop is a state after the body, never the state before it
+                    first_body = body
+                    cur = body
+                    if cur is None:
+                        break
+                    continue
                 new = _join(cur, body)
                 if new is not None and cur is not None and _sig(new) == _sig(cur):
                     cur = new
@@ -332,6 +348,54 @@ class DSF:
             return self.block(s.body, cur)
         # nested defs, pass, import, global, ... : no effect on the tracked state
         return st
+
+    def _holder_seq(self, e: ast.AST, depth: int = 0) -> Optional[List[str]]:
+        """[holder attrs] if e is a literal tuple/list of self attributes, or a property/local that returns one."""
+        fn = self.fn_stack[-1]
+        selfname = fn.self_name or 'self'
+        if isinstance(e, (ast.Tuple, ast.List)) and e.elts:
+            hs = [is_self_attr(x, selfname) for x in e.elts]
+            return hs if all(h is not None for h in hs) else None       # type: ignore
+        a = is_self_attr(e, selfname)
+        if a is not None and depth < 3:
+            p = self.M.lookup_property(self.C, a)
+            g = p[0] if p is not None else None
+            if g is not None:
+                rets = [n for n in walk_no_nested(g.node) if isinstance(n, ast.Return) and n.value is not None]
+                if len(rets) == 1 and isinstance(rets[0].value, (ast.Tuple, ast.List)) and rets[0].value.elts:
+                    hs = [is_self_attr(x, g.self_name or 'self') for x in rets[0].value.elts]
+                    return hs if all(h is not None for h in hs) else None   # type: ignore
+        if isinstance(e, ast.Name) and isinstance(self.locals.get(e.id), tuple) and self.locals[e.id][0] == 'holders':
+            return list(self.locals[e.id][1])
+        return None
+
+    def bind_loop_targets(self, s: ast.For) -> bool:
+        """`for x in (self._a, self._b)` / `for x, v in zip(self._holders, values)`: x aliases every listed sub-object
+        (an unconditional store `x.attr = v` in the body stores to the attribute of each of them); other targets carry
+        the read set of the iterable they are drawn from."""
+        pairs: List[Tuple[ast.AST, ast.AST]] = []
+        it = s.iter
+        if isinstance(it, ast.Call) and norm(it.func) == 'enumerate' and it.args and isinstance(s.target, ast.Tuple) and len(s.target.elts) == 2:
+            pairs.append((s.target.elts[1], it.args[0]))
+        elif isinstance(it, ast.Call) and norm(it.func) == 'zip' and isinstance(s.target, ast.Tuple) and len(s.target.elts) == len(it.args):
+            pairs.extend(zip(s.target.elts, it.args))
+        else:
+            pairs.append((s.target, it))
+        simple_body = not any(isinstance(n, (ast.Break, ast.Continue, ast.Return)) for b in s.body for n in ast.walk(b))
+        once = False
+        for tg, src in pairs:
+            if not isinstance(tg, ast.Name):
+                continue
+            hs = self._holder_seq(src)
+            if hs is not None and simple_body:
+                self.locals[tg.id] = ('holders', tuple(hs), id(s))
+                once = True
+                if len(pairs) > 1:
+                    ASSUMED.add('a zip over a literal sequence of sub-objects visits every one of them (the other iterables '
+                                'are at least as long)')
+            else:
+                self.locals[tg.id] = frozenset(self.expr_reads(src))
+        return once
 
     def note_local(self, s: ast.Assign) -> None:
         """Record local facts: dispatch dicts, must-aliases of self attributes, read sets of locals."""
@@ -454,6 +518,20 @@ class DSF:
         selfname = fn.self_name or 'self'
         r = self._self_attr_root(t)
         if r is None:
+            # loop variable aliasing the sub-objects of a literal sequence: x.attr = v stores to every holder's attr
+            if isinstance(t, ast.Attribute) and isinstance(t.value, ast.Name):
+                loc = self.locals.get(t.value.id)
+                if isinstance(loc, tuple) and loc and loc[0] == 'holders':
+                    cur2: Optional[State] = st
+                    for h in loc[1]:
+                        pa = h + '.' + t.attr
+                        if cur2 is None:
+                            break
+                        if pa in self.derived:
+                            cur2 = self.assign_derived(cur2, pa, value, node)
+                        elif h in self.fam.holders:
+                            cur2 = self._sub_store(h, t.attr, cur2, node)
+                    return cur2
             # sub-object pseudo attribute: self._sec1.pos = ...
             if isinstance(t, ast.Attribute):
                 h = is_self_attr(t.value, selfname)
@@ -734,6 +812,9 @@ def analyse_class(ctx, rule: str, family: Family, cname: str) -> Tuple[int, int]
                     path=fn.path, line=fn.lineno,
                     witness={'receiver': cname, 'entry': owner, 'derived': d, 'deps': sorted(a.tdeps[d]),
                              'dirtied_by': cause}, operand=d)
+    for a_ in sorted(ASSUMED):
+        ctx.assume(a_)
+    ASSUMED.clear()
     return nob, ndis
 
 
